@@ -511,7 +511,8 @@ pub fn plant_giant(rng: &mut Rng, stream: &mut Stream) {
     let s = snap();
     let base = stream.header.bound + 1;
     let at = stream.insts.iter().position(|i| i.is("Function")).unwrap_or(stream.insts.len());
-    match rng.below(5) {
+    let kind = rng.below(6);
+    match kind {
         0 => {
             // a string operand around / beyond 65535 bytes (and far beyond), partly multi-byte
             let n = *rng.pick(&[65_530usize, 65_531, 65_532, 65_535, 65_536, 65_537, 70_000, 131_072, 262_140, 262_150]);
@@ -543,20 +544,23 @@ pub fn plant_giant(rng: &mut Rng, stream: &mut Stream) {
             stream.insts.insert(at, MInst { opcode: s.op("TypeStruct"), rtype: None, rid: Some(base), ops });
         }
         2 => {
-            // more than 256 distinct int/float types, then a literal of a late 64-bit one
+            // more than 256 distinct int/float types (363 exist for widths 8..=128), the 64-bit float last,
+            // then a literal of it
             let mut k = 0u32;
             let mut seq = vec![];
             for w in 8..=128u32 {
                 for sign in 0..2u32 {
-                    seq.push(MInst { opcode: s.op("TypeInt"), rtype: None, rid: Some(base + k), ops: vec![MOp::W(s.k_lit32, if w == 64 { 65 } else { w }), MOp::W(s.k_lit32, sign)] });
+                    seq.push(MInst { opcode: s.op("TypeInt"), rtype: None, rid: Some(base + k), ops: vec![MOp::W(s.k_lit32, w), MOp::W(s.k_lit32, sign)] });
                     k += 1;
                 }
             }
-            for w in [16u32, 32, 64] {
+            for w in (8..=128u32).filter(|w| *w != 64) {
                 seq.push(MInst { opcode: s.op("TypeFloat"), rtype: None, rid: Some(base + k), ops: vec![MOp::W(s.k_lit32, w)] });
                 k += 1;
             }
-            let f64_id = base + k - 1;
+            seq.push(MInst { opcode: s.op("TypeFloat"), rtype: None, rid: Some(base + k), ops: vec![MOp::W(s.k_lit32, 64)] });
+            let f64_id = base + k;
+            k += 1;
             seq.push(MInst { opcode: s.op("Constant"), rtype: Some(f64_id), rid: Some(base + k), ops: vec![MOp::L64(0x1234_5678_9abc_def0)] });
             k += 1;
             for (j, i) in seq.into_iter().enumerate() {
@@ -565,19 +569,26 @@ pub fn plant_giant(rng: &mut Rng, stream: &mut Stream) {
             stream.header.bound += k + 2;
             return;
         }
-        3 => {
-            // more than 65536 tracked ids in front of a 64-bit literal consumer
-            let n = *rng.pick(&[65_534u32, 65_535, 65_536, 65_540, 70_000]);
-            let mut seq = vec![MInst { opcode: s.op("TypeInt"), rtype: None, rid: Some(base), ops: vec![MOp::W(s.k_lit32, 64), MOp::W(s.k_lit32, 0)] }];
+        3 | 5 => {
+            // tens of thousands of tracked ids, THEN a 64-bit type, a value of it and a literal of it
+            let n = *rng.pick(&[65_533u32, 65_534, 65_535, 65_536, 65_540, 70_000]);
+            let mut seq = vec![MInst { opcode: s.op("TypeInt"), rtype: None, rid: Some(base), ops: vec![MOp::W(s.k_lit32, 32), MOp::W(s.k_lit32, 0)] }];
             for k in 0..n {
                 seq.push(MInst { opcode: s.op("Undef"), rtype: Some(base), rid: Some(base + 1 + k), ops: vec![] });
             }
-            seq.push(MInst { opcode: s.op("Constant"), rtype: Some(base), rid: Some(base + n + 1), ops: vec![MOp::L64(7)] });
-            // the undefs are global values (no function open): keep everything at module level
+            let t64 = base + n + 1;
+            seq.push(MInst { opcode: s.op("TypeInt"), rtype: None, rid: Some(t64), ops: vec![MOp::W(s.k_lit32, 64), MOp::W(s.k_lit32, 1)] });
+            seq.push(MInst { opcode: s.op("Undef"), rtype: Some(t64), rid: Some(t64 + 1), ops: vec![] });
+            seq.push(MInst { opcode: s.op("Constant"), rtype: Some(t64), rid: Some(t64 + 2), ops: vec![MOp::L64(7)] });
+            seq.push(MInst { opcode: s.op("SpecConstant"), rtype: Some(t64), rid: Some(t64 + 3), ops: vec![MOp::L64(u64::MAX)] });
+            if kind == 5 {
+                // a switch on the late 64-bit value (parser-level only: a terminator outside a block is the loader's business)
+                seq.push(MInst { opcode: s.op("Switch"), rtype: None, rid: None, ops: vec![MOp::W(s.k_idref, t64 + 1), MOp::W(s.k_idref, 1), MOp::L64(0xAAAA_BBBB_CCCC_DDDD), MOp::W(s.k_idref, 2)] });
+            }
             for (j, i) in seq.into_iter().enumerate() {
                 stream.insts.insert(at + j, i);
             }
-            stream.header.bound += n + 4;
+            stream.header.bound += n + 8;
             return;
         }
         _ => {
